@@ -34,7 +34,7 @@ ASSUMPTIONS = [
     "non-integer positions (floats, strings, None) are outside the quantifier (arbitrary integer positions) and not driven",
 ]
 REQUIRED = {"all": ["set_calls", "clear_calls", "positions_zero_or_negative", "positions_beyond_end", "positions_non_sty",
-                    "positions_duplicate", "distribution_checked", "distributions_over_9_or_more_sites", "position_lists_that_look_like_a_mask", "positions_beyond_64_bits", "kappa_after_checked", "kappa_after_with_cached_dmax",
+                    "positions_duplicate", "distribution_checked", "distributions_over_9_or_more_sites", "position_lists_that_look_like_a_mask", "positions_beyond_64_bits", "shuffled_copies_of_objects_with_sites", "requests_naming_all_held_sites_in_another_order", "kappa_after_checked", "kappa_after_with_cached_dmax",
                     "clear_then_phosphosequence", "out_of_order_sites", "long_ignored_position_histories"]}
 NWORDS = {"quick": 400, "thorough": 5000}
 
@@ -62,6 +62,25 @@ def cases(tier, seed):
             if rng.random() < 0.3:
                 s = s + rng.choice("STY")
         yield {"s": s, "o": rng.randrange(1 << 30)}
+
+
+def check_child(rep, obj, seq, model, rng):
+    """A shuffled copy is a new object: it carries no phosphosites, and giving it some leaves the parent's list alone."""
+    child = obj.get_shuffled_sequence()
+    cs = child.get_sequence()
+    rep.cnt("shuffled_copies_of_objects_with_sites")
+    got = list(child.get_phosphosites())
+    if got:
+        rep.viol("site_list", "a shuffled copy %s of %s (sites %r) reports phosphosites %r nobody set on it" % (cs, seq, model, got), sig={"child": True})
+        return False
+    sty = [i + 1 for i, c in enumerate(cs) if c in "STY"]
+    if sty:
+        child.set_phosphosites([sty[-1]])
+        if list(child.get_phosphosites()) != [sty[-1]] or list(obj.get_phosphosites()) != list(model):
+            rep.viol("site_list", "after set_phosphosites([%d]) on a shuffled copy the copy lists %r and the parent %r (model %r)" % (
+                sty[-1], child.get_phosphosites(), obj.get_phosphosites(), model), sig={"child": True})
+            return False
+    return True
 
 
 def pick_positions(rng, seq, np):
@@ -165,6 +184,12 @@ def judge(case, rep, S):
         r = rng.random()
         if r < 0.55:
             pos = pick_positions(rng, seq, np)
+            if len(model) >= 2 and rng.random() < 0.2:
+                # a later request that names every site held so far, in another order (possibly with new ones): first-set order stays
+                pos = list(reversed(model)) if rng.random() < 0.5 else rng.sample(model, len(model))
+                if all_sty and rng.random() < 0.4:
+                    pos.insert(rng.randint(0, len(pos)), rng.choice(all_sty))
+                rep.cnt("requests_naming_all_held_sites_in_another_order")
             style = rng.choice(["list", "tuple", "each_int"])
             word.append(("set", style, [int(p) for p in pos]))
             rep.cnt("set_calls")
@@ -241,6 +266,8 @@ def check_state(rep, S, obj, seq, model, all_sty, word, rng):
         return False
     if obj.get_sequence() != seq:
         rep.viol("sequence_changed", "stored sequence became %r %s" % (obj.get_sequence(), ctx))
+        return False
+    if model and rng.random() < 0.15 and not check_child(rep, obj, seq, model, rng):
         return False
     if list(obj.get_all_phosphorylatable_sites()) != all_sty:
         rep.viol("all_sites", "get_all_phosphorylatable_sites()=%r, expected %r on %s" % (obj.get_all_phosphorylatable_sites(), all_sty, seq))
